@@ -7,7 +7,7 @@ import subprocess
 import sys
 from concurrent.futures import ThreadPoolExecutor
 
-from mc import c16events, lib, libstate, sched
+from mc import c16events, lib, libstate, reentry, sched
 from mc.c16events import EVENTS, TOGGLES
 from mc.canon import short
 
@@ -41,7 +41,10 @@ RULE = ('E2 explicit-state exploration of library state: events (63: '
         'preemptions; oracle: each thread\'s result equals its sequential '
         'result; the two-thread harnesses are also explored from a cold '
         'library (fresh import before every execution, <= 1 preemption) for '
-        'first-use initialisation races; a witness harness with a toggle '
+        'first-use initialisation races; same-thread re-entrancy: 8 outer '
+        'encodes that reach application code (log handler of the key-'
+        'truncation warning, methods of dict / list / int / str subclasses, '
+        'tzinfo) x 8 inner calls nested at every such point; a witness harness with a toggle '
         'shows the interleavings are real. A state is a history or a schedule; non-trivial = history of '
         'length >= 2 / schedule with >= 1 preemption.')
 BOUNDS = {'quick': {'history_depth': '2 + all a;b;a + depth 3 over 16 core events', 'threads': 2, 'preemptions': '2 (1 for the header and 3-thread harnesses)'},
@@ -87,6 +90,7 @@ def tasks(tier, seed):
     baselines()
     depth = 3 if tier == 'thorough' else 2
     out = [('bfs',)]
+    out += [('reentrant', i) for i in range(reentry.N_OUTERS)]
     out += [('hist', i, depth) for i in range(len(EVENTS))]
     if depth < 3:
         # every depth-3 history over a core of 16 events (one per kind of
@@ -491,6 +495,45 @@ def _other_ok(result):
         return False
 
 
+def _publish(name):
+    def f(p):
+        return repr(lib.frame_summary(p.commands.Basic.Publish(
+            exchange=name, routing_key='k')))
+    return f
+
+
+def _rename_and_marshal(name):
+    def f(p):
+        o = p.commands.Queue.Declare(queue='fine')
+        o.queue = name
+        return p.frame.marshal(o, 1).hex()
+    return f
+
+
+# one caller is refused while another is served: neither verdict may leak
+# into the other call, nor into the calls made afterwards (post-probe)
+HARNESSES += [
+    ('construct invalid name || construct valid name', [
+        _call('Basic.Publish(exchange=orders!)',
+              lambda p: _try(lambda: _publish('orders!')(p))),
+        _call('Basic.Publish(exchange=orders)',
+              lambda p: _try(lambda: _publish('orders')(p)))], 2, 3),
+    ('setattr invalid + marshal || setattr valid + marshal', [
+        _call('Queue.Declare.queue = bad*name; marshal',
+              lambda p: _try(lambda: _rename_and_marshal('bad*name')(p))),
+        _call('Queue.Declare.queue = good-name; marshal',
+              lambda p: _try(lambda: _rename_and_marshal('good-name')(p)))],
+     1, 2),
+    ('refused encode || encode', [
+        _call('marshal Queue.Declare(arguments with 2**64)', lambda p: _try(
+            lambda: p.frame.marshal(p.commands.Queue.Declare(
+                queue='q', arguments={'a': 1, 'l': [2, 2 ** 64]}), 1).hex())),
+        _call('marshal Queue.Declare(arguments ok)', lambda p: _try(
+            lambda: p.frame.marshal(p.commands.Queue.Declare(
+                queue='q', arguments={'a': 1, 'l': [2, 3]}), 1).hex()))],
+     1, 2),
+]
+
 # a thread that selects a ladder and then encodes must get THAT ladder,
 # whatever another thread is in the middle of (thread 0 is judged against
 # its sequential result; thread 1 only for well-formedness)
@@ -593,6 +636,27 @@ def explore_schedules(ctx, h, shard, bound, cold=False):
                           short(sequential, 400), short(results, 400))
         else:
             ctx.outcome('ok')
+            # post-probe: the same calls made one after the other once the
+            # threads are done must give what they gave before any thread
+            # ran (a verdict or buffer left behind by the race shows here)
+            after = []
+            for b in bodies:
+                reset_switch()
+                after.append(b())
+            reset_switch()
+            if [after[t] for t in judged] != [sequential[t] for t in judged]:
+                ctx.outcome('schedule-left-state-behind')
+                ctx.violation('sched-after|{}|{}'.format(h, [
+                    i for i, c in enumerate(x.choices) if c]),
+                    'harness "{}": after the schedule with switches at '
+                    'points {} had finished, the same calls made '
+                    'sequentially gave {} instead of {}'.format(
+                        name, [(i, c) for i, c in enumerate(x.choices)
+                               if c], short(after, 300),
+                        short(sequential, 300)),
+                    {'kind': 'sched', 'h': h, 'cold': cold,
+                     'choices': list(x.choices)},
+                    short(sequential, 400), short(after, 400))
 
     stats = sched.explore(runner, bound, check, shard=shard)
     ctx.count('schedules', stats['executions'])
@@ -634,6 +698,8 @@ def run(task, ctx):
             explore_histories(ctx, task[1], task[2])
         elif kind == 'hist3':
             explore_core3(ctx, task[1])
+        elif kind == 'reentrant':
+            reentry.explore(ctx, task[1])
         elif kind == 'cold':
             explore_schedules(ctx, task[1], (task[2], COLD_SHARDS), task[3],
                               cold=True)
@@ -658,7 +724,9 @@ def finish(merged, tier, seed):
 
 def replay(case, ctx):
     baselines()
-    if case['kind'] == 'hist':
+    if case['kind'] == 'reentrant':
+        reentry.explore(ctx, case['outer'])
+    elif case['kind'] == 'hist':
         run_history(ctx, tuple(case['hist']))
     elif case['kind'] == 'sched':
         h = case['h']
@@ -689,6 +757,17 @@ def replay(case, ctx):
                                                  short(results, 300),
                                                  short(seq, 300)), case,
                           short(seq, 400), short(results, 400))
+        elif h != WITNESS:
+            after = []
+            for b in bodies:
+                reset_switch()
+                after.append(b())
+            if [after[t] for t in judged] != [seq[t] for t in judged]:
+                ctx.violation('sched-after|replay', 'harness "{}" schedule '
+                              '{}: afterwards the calls give {} instead of '
+                              '{}'.format(name, case['choices'],
+                                          short(after, 300), short(seq, 300)),
+                              case, short(seq, 400), short(after, 400))
     else:
         explore_bfs(ctx)
     reset_switch()
